@@ -163,10 +163,10 @@ func recoverCheck(w *harness.World, img *vstor.Stor, what string, loose map[stri
 		// (Recover puts every table into level 0, where file-number order need not be recency
 		// order: let the automatic level-0 compactions run first and read everything back after
 		// each step, before the full manual compaction levels the differences)
-		for _, op := range []string{"q", "put:b", "q", "cr", "re", "del:b", "q", "re"} {
+		for i, op := range []string{"q", "put:b", "q", "cr", "re", "del:b", "q", "re"} {
 			w2.Apply(op)
-			if !w2.Failed() {
-				w2.CheckDB()
+			if !w2.Failed() && (i == 0 || i == 2 || i == 3) {
+				w2.CheckDB() // after the automatic compactions, after a write + more of them, after the manual one
 			}
 			if w2.Failed() {
 				break
